@@ -88,9 +88,11 @@ def upd (l : List Nat) (off : Nat) (xs : List Nat) : List Nat :=
 
 namespace WBuf
 def len (b : WBuf) : Nat := b.bytes.length
-/-- effect of writing `xs` at `off` (in range) -/
+/-- effect of writing `xs` at `off` (in range).  An empty write counts `off` itself as reached; wherever the layout
+functions write an empty slice (`fill(i..i)`, an absent exponent sign, fraction digits already in place) `off` is
+at or below the mark already, so the mark stays exact. -/
 def put (b : WBuf) (off : Nat) (xs : List Nat) : WBuf :=
-  ⟨upd b.bytes off xs, if xs.length = 0 then b.hi else max b.hi (off + xs.length)⟩
+  ⟨upd b.bytes off xs, max b.hi (off + xs.length)⟩
 /-- `bytes[i] = v` -/
 def set (b : WBuf) (i v : Nat) : Res WBuf :=
   if i < b.len then .ok (b.put i [v]) else .panic
